@@ -6,6 +6,7 @@ import Tengo.Drivers.C13
 import Tengo.Drivers.C09
 import Tengo.Drivers.C02
 import Tengo.Drivers.C01
+import Tengo.Drivers.F0
 import Tengo.Drivers.C12
 import Tengo.Drivers.C17
 import Tengo.Drivers.C18
@@ -13,6 +14,11 @@ import Tengo.Drivers.C19
 import Tengo.Drivers.C10
 import Tengo.Drivers.C20
 import Tengo.Drivers.C15
+import Tengo.Drivers.C16
+import Tengo.Drivers.C11
+import Tengo.Drivers.C14
+import Tengo.Drivers.C06
+import Tengo.Drivers.C08
 /-!
 Line-protocol driver: one S-expression `(cmd arg…)` per input line, one answer
 line per input line. The only `partial def` of the project is the IO loop.
@@ -27,13 +33,19 @@ def allHandlers : List (String × (List Sexp → String)) :=
   Tengo.Drivers.C09.handlers ++
   Tengo.Drivers.C02.handlers ++
   Tengo.Drivers.C01.handlers ++
+  Tengo.Drivers.F0.handlers ++
   Tengo.Drivers.C12.handlers ++
   Tengo.Drivers.C17.handlers ++
   Tengo.Drivers.C18.handlers ++
   Tengo.Drivers.C19.handlers ++
   Tengo.Drivers.C10.handlers ++
   Tengo.Drivers.C20.handlers ++
-  Tengo.Drivers.C15.handlers
+  Tengo.Drivers.C15.handlers ++
+  Tengo.Drivers.C16.handlers ++
+  Tengo.Drivers.C11.handlers ++
+  Tengo.Drivers.C14.handlers ++
+  Tengo.Drivers.C06.handlers ++
+  Tengo.Drivers.C08.handlers
 
 def answer (line : String) : String :=
   match Sexp.parse line with
